@@ -236,7 +236,7 @@ func events(prev, cur *snapshot, i uint64, devOK bool) []string {
 	if ct.ca == "F" && pt.ca != "F" {
 		add("chg", "apply", "F")
 	}
-	if cur.aO != prev.aO {
+	if cur.aO != prev.aO || cur.aR != prev.aR {
 		if cur.aR == i && cur.aI == i && cur.aO == ct.cord && pt.phase == "chg" {
 			add("chg", "apply", "C")
 		} else if pt.phase == "rbk" && cur.aO == ct.rord && cur.aI == i && devOK {
